@@ -7,27 +7,34 @@
 EXTENDS AlgoEnum, FzfAlgoSlab, Json, TLC
 
 CONSTANTS Depth, SlabCaps      \* history length; slab capacities (int16 area) a history may run on, -1 = no slab
+NoArgs == {}
 MCFills == {"zero", "max", "neg", "rnd", "stale"}
 
 (* argument records: the n-th matcher / direction of enumerated case (a, i), on a slab of capacity cap *)
-ArgOf(a, i, n, cap) == LET c == CaseOf(a, i) IN
+ArgOf(a, i, n, cap) == LET c == CaseArgs(a, i) IN
     [kind |-> Kinds[(n + 1) \div 2], t |-> c.t, P |-> c.p, cs |-> c.cs, norm |-> c.norm, fwd |-> Dirs[2 - (n % 2)],
      scheme |-> c.sch, cap16 |-> cap, live |-> c.live]
 (* small exhaustive argument space: binary alphabet, all matchers, both directions, two capacities *)
-SmallIdx == {i \in 0..(Total(6) - 1) : i % 131 = 7}
+SmallIdx == {i \in 0..(Total(6) - 1) : i % 397 = 7}
 MCArgSpace == {x \in {ArgOf(6, i, n, cap) : i \in SmallIdx, n \in 1..(2 * Len(Kinds)), cap \in {-1, 4}} : x.live}
 
 (* ---- history export *)
 VARIABLES hist, cap
 HInit == AInit /\ hist = <<>> /\ cap \in SlabCaps
-RandArg == LET a == RandomElement(1..5)
-               i == RandomElement(0..(Total(a) - 1))
-               n == RandomElement(1..(2 * Len(Kinds)))
-           IN ArgOf(a, i, n, cap)
+(* one random number per step (bound once by the quantifier), decoded arithmetically; V2 gets half of the calls *)
+KindPick == <<1, 2, 1, 2, 1, 2, 1, 2, 3, 4, 5, 6, 7, 8, 9, 10, 11, 12, 13, 14>>
+ArgFromPick(k) == LET a == (k % 5) + 1
+                      t == StrOf(Alphas[a].t, (k \div 5) % NT(a))
+                      p == StrOf(Alphas[a].p, (k \div 11) % NP(a))
+                      cs == (k \div 13) % 2 = 1 \/ p # LowerSeq(p)
+                      nrm == (k \div 17) % 2 = 1 /\ HasAccents(a) /\ p = NormSeq(p)
+                      n == KindPick[((k \div 7) % Len(KindPick)) + 1]
+                  IN [kind |-> Kinds[(n + 1) \div 2], t |-> t, P |-> p, cs |-> cs, norm |-> nrm, fwd |-> Dirs[2 - (n % 2)],
+                      scheme |-> Schemes[((k \div 19) % 3) + 1], cap16 |-> cap, live |-> Admissible(p, cs, nrm)]
 HNext == /\ Len(hist) < Depth
-         /\ LET a == RandArg IN
-              /\ a.live
-              /\ Call(a)
+         /\ \E k \in {RandomElement(0..1000000000)} :
+              LET a == ArgFromPick(k) IN
+              /\ a.live /\ Call(a)
               /\ hist' = Append(hist, [kind |-> a.kind, t |-> a.t, p |-> a.P, cs |-> a.cs, norm |-> a.norm, fwd |-> a.fwd,
                                        sch |-> a.scheme, fill |-> slab,      \* what the slab holds when the call starts
                                        exp |-> <<result'.s, result'.e, result'.sc, result'.pos>>])
